@@ -34,44 +34,44 @@ STATIC = ('Static analysis of the MIR rustc produces for the real cargo build (r
 
 PROPERTIES = {
     'C01': P('ordered collection equals sequential iteration',
-             ['C01-KEY', 'C01-APPEND', 'C01-MERGE', 'C01-RESERVE', 'C01-COMPOSE', 'C05-VISIT', 'C05-NOSKIP', 'C05-SOURCE', 'S2', 'S4', 'S5', 'S1'],
+             ['C01-KEY', 'C01-APPEND', 'C01-MERGE', 'C01-RESERVE', 'C01-COMPOSE', 'C05-VISIT', 'C05-NOSKIP', 'C05-SOURCE', 'S2', 'S4', 'S5', 'S1', 'C15-CLAMP', 'C15-CHUNKCAP'],
              STATIC + 'Decided: merge keys / positional slots are the source positions delivered by the pull that produced the value; '
              'per-thread buffers are append-only; def-use facts of the k-way merge; capacity reservation dominates the positional path; '
              'stage order in composed closures; all per-thread results reach the merge; ordered terminals never reach an unordered kernel. '
              'Not decided: functional correctness of the merge for every key multiset, equality over all inputs.'),
     'C02': P('find/first/any/all answer with the first match in source order',
-             ['C02-MINIDX', 'C02-IDX', 'C02-FIRST', 'C02-ANYALL', 'C01-COMPOSE', 'S2', 'S4', 'S5'],
+             ['C02-MINIDX', 'C02-IDX', 'C02-FIRST', 'C02-ANYALL', 'C01-COMPOSE', 'S2', 'S4', 'S5', 'C15-CLAMP', 'C15-CHUNKCAP'],
              STATIC + 'Decided: the cross-thread reduction of find results is min-by-index on its whole finite domain; reported indices '
              'originate from the pull position; each task returns its own first match; any/all/find_with_index wiring. '
              'Not decided: the schedule quantifier itself (discharged compositionally through T3).'),
     'C03': P('reduce family combines every surviving element exactly once',
-             ['C03-MAYBE', 'C03-THREAD', 'C03-OUTER', 'C03-WRAP', 'C05-VISIT', 'C05-NOSKIP', 'S2', 'S4', 'S5'],
+             ['C03-MAYBE', 'C03-THREAD', 'C03-OUTER', 'C03-WRAP', 'C05-VISIT', 'C05-NOSKIP', 'S2', 'S4', 'S5', 'C15-CLAMP', 'C15-CHUNKCAP'],
              STATIC + 'Decided: maybe_reduce truth table; accumulator threading in every reduce task; outer operator is the user operator '
              'lifted over Option; provided-method wrappers. Not decided: numerical equality over schedules.'),
     'C04': P('count and for_each visit every surviving element exactly once',
-             ['C04-SUM', 'C04-THREAD', 'C04-FOREACH', 'C04-CHAIN', 'C05-VISIT', 'C05-NOSKIP', 'S2', 'S4', 'S5'],
+             ['C04-SUM', 'C04-THREAD', 'C04-FOREACH', 'C04-CHAIN', 'C05-VISIT', 'C05-NOSKIP', 'S2', 'S4', 'S5', 'C05-DRIVE', 'C15-CLAMP', 'C15-CHUNKCAP'],
              STATIC + 'Decided: counts are summed with + and default 0; count accumulators are threaded; for_each = count(map(f)); counting '
              'chains cannot skip closures. Not decided: multiset equality over schedules.'),
     'C05': P('closures run exactly once per element; source advanced by one thread at a time',
-             ['C05-AFFINE', 'C05-ONCE', 'C01-COMPOSE', 'C05-VISIT', 'C05-SOURCE', 'C05-NOSKIP'],
+             ['C05-AFFINE', 'C05-ONCE', 'C01-COMPOSE', 'C05-VISIT', 'C05-SOURCE', 'C05-NOSKIP', 'C05-DRIVE'],
              STATIC + 'Decided: stage closures take elements by value; by-reference closures are called at most once per element between '
              'pulls; downstream stages run only on survivors; must-visit tasks observe exhaustion and drop no pulled element; by-value '
              'iterators enter only through the serialising wrapper. Not decided: ConIterOfIter really serialises next().'),
     'C06': P('collect_into appends to, and never disturbs, existing contents',
-             ['C06-RECV', 'C06-MUT', 'C06-OFFSET', 'C01-RESERVE'],
+             ['C06-RECV', 'C06-MUT', 'C06-OFFSET', 'C06-GROW', 'C01-RESERVE'],
              STATIC + 'Decided: a by-value target is never dropped on a normal path and the result depends on it; &mut targets only receive '
              'appends; the write offset is the target length taken before the run. Not decided: dependency conversions keep contents.'),
     'C07': P('collect_x returns a permutation of the sequential result',
-             ['C07-FRAG', 'C07-TASK', 'C07-SEQ', 'C01-APPEND', 'C05-VISIT', 'C05-NOSKIP', 'S1', 'S2', 'S4', 'S5'],
+             ['C07-FRAG', 'C07-TASK', 'C07-SEQ', 'C01-APPEND', 'C05-VISIT', 'C05-NOSKIP', 'S1', 'S2', 'S4', 'S5', 'C15-CLAMP', 'C15-CHUNKCAP'],
              STATIC + 'Decided: every per-thread fragment returned by the runner is appended unmodified; tasks only append; sequential mode '
              'is the ordered collect. Not decided: multiset equality over schedules; append keeps all fragments (T3).'),
     'C08': P('NumThreads::Max(n) bounds concurrency; Max(1) runs on the calling thread',
-             ['C08-WHO', 'C08-SPAWN', 'C08-GUARD', 'C08-MAX', 'C08-SEQ', 'C08-CALLER', 'S1', 'S6', 'S3', 'S7', 'C12-STORE'],
+             ['C08-WHO', 'C08-SPAWN', 'C08-GUARD', 'C08-MAX', 'C08-SEQ', 'C08-CALLER', 'S1', 'S6', 'S3', 'S7', 'C12-STORE', 'C12-NOSET'],
              STATIC + 'Decided: threads are created only in the runner entries; every in-loop spawn is guarded by do_spawn and counted; '
              'do_spawn is true only if spawned+1 < max; max <= n for Max(n); Max(1) reaches no runner entry. '
              'Not decided: OS scheduling (thread::scope semantics, T2).'),
     'C09': P('sequential mode is identical to std iterator execution',
-             ['S1', 'S6', 'C09-SEQSHAPE', 'C09-EMPTY', 'S3', 'S7', 'C12-STORE'],
+             ['S1', 'S6', 'C09-SEQSHAPE', 'C09-EMPTY', 'S3', 'S7', 'C12-STORE', 'C09-TIES', 'C12-NOSET'],
              STATIC + 'Decided: num_threads(1) dispatches to the sequential kernel on every route; sequential kernels are in-order, lazy / '
              'left-fold std chains rooted at into_seq_iter with closures in declaration order and no chunk size. '
              'Not decided: into_seq_iter order (T3).'),
@@ -81,12 +81,12 @@ PROPERTIES = {
              'match; sequential find kernels are lazy; the spawn loop stops when the source is exhausted. '
              'Not decided: liveness under a fair scheduler (T3: skip_to_end makes later pulls return None).'),
     'C11': P('ChunkSize::Exact(c): every pull takes exactly c elements',
-             ['C11-RESOLVE', 'C11-RUNNER', 'C11-SPAWN', 'C11-TASKARG', 'C11-PULL', 'S3', 'S7', 'C12-STORE'],
+             ['C11-RESOLVE', 'C11-RUNNER', 'C11-SPAWN', 'C11-TASKARG', 'C11-PULL', 'S3', 'S7', 'C12-STORE', 'C12-NOSET'],
              STATIC + 'Decided: the origin chain of the chunk size from ChunkSize::Exact(c) through calc_chunk_size, Runner::new, '
              'next_chunk_size*, the spawned closures and the task parameter to every sized pull, with no arithmetic on the way. '
              'Not decided: that a pull of size c takes exactly c (T3).'),
     'C12': P('parameters propagate unchanged through every transformation',
-             ['C12-BASE', 'S7', 'C12-FROM', 'S3', 'C12-STORE', 'C12-OBSERVE', 'S6'],
+             ['C12-BASE', 'S7', 'C12-FROM', 'S3', 'C12-STORE', 'C12-OBSERVE', 'S6', 'C12-NOSET'],
              STATIC + 'Decided completely (modulo T1/T4) by structural induction over the API: defaults, setters, From<usize>, every '
              'transformation forwards self.params, constructors store and destructors return it, params() observes it.',
              assumes=('T1', 'T4')),
@@ -96,22 +96,24 @@ PROPERTIES = {
              'length reset and its slot is read once; bags are unwrapped only through the counts-match check; leak primitives only at '
              'the re-owned site. Not decided: drop counts themselves; dependency drop behaviour (T3).'),
     'C14': P('a panicking closure propagates as a panic and never corrupts memory',
-             ['C14-PARTIAL', 'C14-WINDOW', 'C14-PROPAGATE', 'C14-NOWAIT', 'S2'],
+             ['C14-PARTIAL', 'C14-WINDOW', 'C14-PROPAGATE', 'C14-NOWAIT', 'C14-SERIAL', 'S2'],
              STATIC + 'Decided: no destructor of a partially written positional buffer is reachable from the runner call\'s unwind edge '
              '(drop-flag aware); no user code can run inside the double-drop window of the merge; join results are unwrapped, nothing '
              'catches or detaches a panic; no loop on the path of a terminal call waits only on state that other threads advance '
              '(a dead worker advances nothing) and no blocking primitive is called. Not decided: thread::scope re-raises (T2).'),
     'C15': P('parameters never change a result or make a computation fail',
-             ['C15-OBLIG', 'C15-CLAMP', 'C15-ALLOC'],
+             ['C15-OBLIG', 'C15-CLAMP', 'C15-ALLOC', 'C15-CHUNKCAP'],
              STATIC + 'Decided: every panic site (overflow/div-by-zero assertion, expect, assert) of the parameter-resolution slice that '
              'depends on the configuration is discharged by a dominating guard, a constructor invariant, an arithmetic lemma or a stated '
              'assumption. Not decided: equality of results across configurations (conjunction of C01-C07); panics inside dependencies.',
              extra=['A1 remaining_len reported by the concurrent iterator <= its initial length (T3)',
                     'A2 available_parallelism() <= 2^20 and collection lengths <= isize::MAX']),
     'C16': P('computations are lazy: nothing runs before the terminal call',
-             ['C16', 'S3'],
+             ['C16', 'S3', 'S7', 'C12-STORE', 'C12-NOSET'],
              STATIC + 'Decided completely (sound over-approximation): call-graph reachability from every transformation / setter / source '
              'constructor to terminals, kernels, pulls and user-closure calls, not searching through another transformation; the eight '
-             'documented-lazy-but-eager sites are known findings, any other is a violation.',
+             'documented-lazy-but-eager sites are known findings, any other is a violation. "Under the parameters in effect at that call": '
+             'every terminal hands self.params to its kernel (S3) and every transformation / setter stores the received params unchanged '
+             'but for the field it sets (S7, C12-STORE).',
              assumes=('T1', 'T4')),
 }
